@@ -11,6 +11,8 @@ returned correspondence.
 """
 import copy
 
+import numpy as np
+
 import networkx as nx
 from hypothesis import strategies as st
 
@@ -86,6 +88,9 @@ def K(key):
         return 'K%d' % key
     if _KEYMODE[0] == 'tuple':
         return ('t', key)
+    if _KEYMODE[0] == 'npint':
+        # indices that come out of numpy arrays: equal to and hashed like the plain integers, but of another type
+        return np.int64(key)
     return key
 
 
@@ -467,8 +472,8 @@ def _run(case):
                 m.inter.setdefault(itype, []).append((tuple(idx_of[a] for a in atoms), params, {}))
             slots.append([new, m, {'dirty': set(), 'origin': 'block'}])
             flags.add('block-to-molecule')
-        elif name in ('merge', 'system_merge', 'from_block') and _KEYMODE[0] != 'int':
-            continue   # merging renumbers with integer arithmetic: integer keys only
+        elif name in ('merge', 'system_merge', 'from_block') and _KEYMODE[0] not in ('int', 'npint'):
+            continue   # merging renumbers with integer arithmetic: integer keys (plain or numpy) only
         elif name == 'merge':
             if op['other'] is None or len(slots) == 1:
                 nm, nmodel = build_from_desc(op['new'])
@@ -646,7 +651,7 @@ def strategy(tier):
     ops = st.tuples(st.lists(segment, min_size=1, max_size=max_ops // 5), st.lists(edit_ops, max_size=4)).map(
         lambda t: [o for seg in t[0] for o in seg] + t[1])
     return st.fixed_dictionaries({'init': init, 'ops': ops,
-                                  'keymode': st.sampled_from(['int', 'str', 'int', 'tuple', 'int'])})
+                                  'keymode': st.sampled_from(['int', 'str', 'int', 'tuple', 'int', 'npint'])})
 
 
 PARTS = [
